@@ -15,6 +15,10 @@ RULE = ("seeded random declaration trees (depth <= 3: arguments, dotted groups, 
         "class / list fields, class-typed arguments with 1-2 subclasses, List[dataclass], optional or required subcommands), "
         "signature-derived fields may carry a leading underscore: a required private field is declared like any other, a private "
         "field with a default exists in the source but is not declared), "
+        "for 40% of the parsers a construction history of link_arguments(apply_on='instantiate') attempts between top-level "
+        "dataclass-/class-typed arguments in random order (pairs a->b.x / b->a.y of which the later one closes a cycle, a target "
+        "with a bad key form below a class-typed argument, an unknown source), the program catching the ValueError of the "
+        "rejected ones; "
         "one valid configuration each, then every single mutation of it: a foreign key (fresh name, a name declared at "
         "another level, an undeclared private field of the source, or the list-append spelling 'zz+' / '<declared non-list name>+') with values 7 / null / {} / nested mappings / lists inserted into every mapping of the tree "
         "(top level, group, dataclass, class value, init_args, list item, subcommand section incl. a section not in force), "
@@ -41,6 +45,11 @@ ASSUMPTIONS = [
     "like defaults=True as far as subcommand sections are concerned; not modelled separately)",
     "argv as individual options and individual environment variables are not modelled (the configuration travels as a "
     "whole: object, config string, --cfg string, APP_CFG string)",
+    "links: only apply_on='instantiate' links whose target is an int field of a top-level dataclass-typed argument; WHICH "
+    "attempts the library accepts is observed (the runner reports it per case) and given to model and spec as part of the "
+    "parser's history, not predicted (the cycle rule is property C16's); what is modelled and proved is the effect on the "
+    "required keys: a rejected attempt changes nothing, an accepted link exempts exactly its target. Links applied on parse "
+    "(value propagation, target not settable) are property C15's and are not generated",
     "dict_kwargs (documented escape for unresolved **kwargs) is treated as declared and opaque; never generated",
     "order in which several simultaneous errors are reported is modelled for check_values (depth, then key order) but "
     "_apply_actions' breadth-first queue is modelled depth-first; generated cases carry at most one insertion and one removal",
@@ -597,7 +606,9 @@ META = {
                   "guard_class; (2) C06_accepted_only_if_required_present: acceptance implies every required key of the closure (own "
                   "arguments, those of the subcommand in force, those of a kept section of another subcommand, required fields of every "
                   "list item, required parameters of the selected class, recursively) is present and non-null, and C06_required_subcommand_selected: a required subcommand is selected "
-                  "and declared; (3) C06_unknown_key_error_only_if_undeclared: an unknown-key error is raised only when the configuration does "
+                  "and declared; C06_required_present_after_rejected_links / C06_required_present_with_links: the same for parsers whose "
+                  "construction included link_arguments attempts (a rejected attempt leaves every required key enforced; an accepted "
+                  "link exempts exactly its target); (3) C06_unknown_key_error_only_if_undeclared: an unknown-key error is raised only when the configuration does "
                   "contain an undeclared key; (4) three _refuted witnesses (kernel-evaluated) for the findings. "
                   "That the key NAMED by the error is the offending one is NOT a theorem: it is checked per case by the correspondence (the key "
                   "extracted from the real ArgumentError must be a suffix of an undeclared / missing key path of the reference semantics, "
